@@ -21,6 +21,13 @@ let tok_prows rows = String.concat ";" (List.map (fun r -> tok_of_zlist (List.co
 let tcards_of_tok t = if t = "_" then [] else List.map rows_of_tok (String.split_on_char '/' t)
 let tok_tcards cs = if cs = [] then "_" else String.concat "/" (List.map tok_rows cs)
 
+(* stack secret of TMCG_CardSecret: entries separated by '/', each "idx:rows" *)
+let tpairs_of_tok t = if t = "_" then [] else
+  List.map (fun s -> match String.index_opt s ':' with
+    | Some i -> (n_of_hex (String.sub s 0 i), prows_of_tok (String.sub s (i + 1) (String.length s - i - 1)))
+    | None -> failwith "tpair") (String.split_on_char '/' t)
+let tok_tpairs ps = if ps = [] then "_" else String.concat "/" (List.map (fun (i, r) -> hex_of_n i ^ ":" ^ tok_prows r) ps)
+
 let () =
   register "enc62" (function [z; out] -> (tok_of_bytes (encode62 (z_of_hex z)), out) | _ -> failwith "arity");
   register "dec62" (function [s; out] -> (opt hex_of_z (decode62 (bytes_of_tok s)), out) | _ -> failwith "arity");
@@ -34,6 +41,8 @@ let () =
   register "tsec_imp" (function [s; out] -> (opt tok_prows (import_tsecret (bytes_of_tok s)), out) | _ -> failwith "arity");
   register "tstack_exp" (function [cs; out] -> (tok_of_bytes (export_tstack (tcards_of_tok cs)), out) | _ -> failwith "arity");
   register "tstack_imp" (function [old; s; out] -> (opt tok_tcards (import_tstack (tcards_of_tok old) (bytes_of_tok s)), out) | _ -> failwith "arity");
+  register "tss_exp" (function [ps; out] -> (tok_of_bytes (export_tstacksecret (tpairs_of_tok ps)), out) | _ -> failwith "arity");
+  register "tss_imp" (function [old; s; out] -> (opt tok_tpairs (import_tstacksecret (tpairs_of_tok old) (bytes_of_tok s)), out) | _ -> failwith "arity");
   register "vstack_exp" (function [cs; out] -> (tok_of_bytes (export_vstack (cards_of_tok cs)), out) | _ -> failwith "arity");
   register "vstack_imp" (function [old; s; out] -> (opt tok_cards (import_vstack (cards_of_tok old) (bytes_of_tok s)), out) | _ -> failwith "arity");
   register "vss_exp" (function [ps; out] -> (tok_of_bytes (export_vstacksecret (pairs_of_tok ps)), out) | _ -> failwith "arity");
